@@ -119,6 +119,7 @@ func verifyFuncOnce(w *World, key string, opts VerifyOpts) (res *FuncResult) {
 		n := c.declConst("p_"+mangle(p.Name()), c.sortOf(p.Type()))
 		fr.env[p] = n
 		x.assumeAllocatedDeep(st0, p.Type(), n)
+		x.assumeIntRange(p.Type(), n)
 	}
 	for _, p := range fn.Params {
 		x.topReqs = append(x.topReqs, x.entryReqs(st0, p, fr.env[p])...)
